@@ -517,6 +517,12 @@ pub fn cases_child_main(args: &[String], f: &(dyn Fn(&str, &str, &str, u64) -> C
     0
 }
 
+/// Wall-clock limit for one chunk of cases (the only clock the case runner reads; it
+/// cannot fire on a chunk that finishes). Chunks are sized to take seconds.
+pub fn chunk_watchdog_secs() -> u64 {
+    std::env::var("VERIF_CHUNK_WATCHDOG").ok().and_then(|s| s.parse().ok()).unwrap_or(600)
+}
+
 pub struct ChunkResult {
     pub cases: Vec<CaseOut>,
     /// the child ended without reporting every case: (index of the case in flight, how it ended)
@@ -525,18 +531,54 @@ pub struct ChunkResult {
 
 pub fn run_chunk(prop: &str, batch: &str, first: u64, count: u64, tier: &str, dev: bool) -> ChunkResult {
     let bin = self_exe(dev);
-    let out = std::process::Command::new(&bin)
+    // a chunk that has not finished after the watchdog period is killed (a deadlock or
+    // endless loop in the code under test); what it had reported so far is kept
+    let child = std::process::Command::new(&bin)
         .args(["cases", prop, batch, &first.to_string(), &count.to_string(), tier])
         .stdin(std::process::Stdio::null())
+        .stdout(std::process::Stdio::piped())
         .stderr(std::process::Stdio::inherit())
-        .output();
-    let out = match out {
-        Ok(o) => o,
+        .spawn();
+    let mut child = match child {
+        Ok(c) => c,
         Err(e) => {
             eprintln!("HARNESS ERROR: cannot start {bin}: {e}");
             std::process::exit(2);
         }
     };
+    let mut stdout = child.stdout.take().expect("piped stdout");
+    let reader = std::thread::spawn(move || {
+        use std::io::Read;
+        let mut buf = Vec::new();
+        let _ = stdout.read_to_end(&mut buf);
+        buf
+    });
+    let limit = std::time::Duration::from_secs(chunk_watchdog_secs());
+    let started = Instant::now();
+    let mut timed_out = false;
+    let status = loop {
+        match child.try_wait() {
+            Ok(Some(st)) => break st,
+            Ok(None) => {
+                if started.elapsed() > limit {
+                    timed_out = true;
+                    let _ = child.kill();
+                    break child.wait().expect("wait after kill");
+                }
+                std::thread::sleep(std::time::Duration::from_millis(20));
+            }
+            Err(e) => {
+                eprintln!("HARNESS ERROR: waiting for {bin}: {e}");
+                std::process::exit(2);
+            }
+        }
+    };
+    let bytes = reader.join().unwrap_or_default();
+    struct Out {
+        stdout: Vec<u8>,
+        status: std::process::ExitStatus,
+    }
+    let out = Out { stdout: bytes, status };
     let text = String::from_utf8_lossy(&out.stdout);
     let mut cases = vec![];
     for l in text.lines() {
@@ -547,11 +589,14 @@ pub fn run_chunk(prop: &str, batch: &str, first: u64, count: u64, tier: &str, de
         }
     }
     let died = if (cases.len() as u64) < count {
-        Some((first + cases.len() as u64, format!("{}", out.status)))
+        Some((
+            first + cases.len() as u64,
+            if timed_out { format!("no result within {} s (killed by the watchdog: deadlock or endless loop)", chunk_watchdog_secs()) } else { format!("{}", out.status) },
+        ))
     } else {
         None
     };
-    if died.is_some() && out.status.code() == Some(2) {
+    if died.is_some() && !timed_out && out.status.code() == Some(2) {
         eprintln!("HARNESS ERROR: case child reported a harness error ({prop} {batch} {first}+{count})");
         std::process::exit(2);
     }
